@@ -336,6 +336,10 @@ class Parser:
             return ("array", es)
         if v == "{":
             return self.block()
+        if v == "async" and k == "id" and (self.peek(1)[1] in ("move", "{")):
+            self.i += 1
+            self.accept("move")
+            return ("async", self.block())
         if v == "if":
             return self.if_expr()
         if v == "match":
